@@ -434,6 +434,22 @@ var bulkOps = []Op{
 			return b.String()
 		}
 	}},
+	{Name: "v3 decodes rejected at the first element (constructor and nil receiver)", Make: func(e *Env, slot int) func() string {
+		return func() string {
+			m, err := v3.NewEnvironmental().Decode([]string{"CVSS:3.1/X", "CVSS:3.0/Y:", "CVSS:3.1/:Z"}[slot%3])
+			var nb *v3.Base
+			m2, err2 := nb.Decode([]string{"CVSS:9/", "CVS:3.1/AV:N", "CVSS:3.1:1"}[slot%3])
+			return fmt.Sprint(m == nil, errStr(err), m2 == nil, errStr(err2))
+		}
+	}},
+	{Name: "v2 decodes rejected at the first element (constructor and nil receiver)", Make: func(e *Env, slot int) func() string {
+		return func() string {
+			m, err := v2.NewEnvironmental().Decode([]string{"X", "Y:", ":Z"}[slot%3])
+			var nb *v2.Base
+			m2, err2 := nb.Decode([]string{"AV:Q", "AV", "ZZ:N"}[slot%3])
+			return fmt.Sprint(m == nil, errStr(err), m2 == nil, errStr(err2))
+		}
+	}},
 	{Name: "v3 base report export, reader drained after a pause", Make: func(e *Env, slot int) func() string {
 		return func() string {
 			m, err := v3.NewBase().Decode(bulkVec3(slot, 5))
@@ -527,6 +543,21 @@ func Bulk() []Scenario {
 		{"v2 base decode x20 || v2 base decode (one vector) [distinct objects]", []int{ix("v2 base decode x20 (distinct vectors)"), ix("v2 base decode (one vector)")}, false},
 		{"v3 base report export x20 (readers drained late) || v3 base report export, reader drained after a pause [distinct objects]", []int{ix("v3 base report export x20, each reader drained after the next export"), ix("v3 base report export, reader drained after a pause")}, false},
 		{"v3 base report export, reader drained after a pause || the same [distinct objects]", []int{ix("v3 base report export, reader drained after a pause"), ix("v3 base report export, reader drained after a pause")}, false},
+	}
+}
+
+// Tiny: decodes that are rejected at their first element are the shortest executions that pass
+// through a decoder's entry and exit (where pools, spare lists and work areas are taken and given
+// back); two and three threads of them are short enough for the pass over ALL schedules.
+func Tiny() []Scenario {
+	a, b := opIndex("v3 decodes rejected at the first element (constructor and nil receiver)"), opIndex("v2 decodes rejected at the first element (constructor and nil receiver)")
+	return []Scenario{
+		{"v3 tiny decodes || v3 tiny decodes [distinct objects]", []int{a, a}, false},
+		{"v2 tiny decodes || v2 tiny decodes [distinct objects]", []int{b, b}, false},
+		{"v3 tiny decodes || v2 tiny decodes [distinct objects]", []int{a, b}, false},
+		{"v3 tiny decodes || v3 tiny decodes || v3 tiny decodes [distinct objects]", []int{a, a, a}, false},
+		{"v2 tiny decodes || v2 tiny decodes || v2 tiny decodes [distinct objects]", []int{b, b, b}, false},
+		{"v3 tiny decodes || v2 tiny decodes || v3 tiny decodes [distinct objects]", []int{a, b, a}, false},
 	}
 }
 
